@@ -514,14 +514,19 @@ func (a *heldChild) Receive(c *actor.Context) {
 }
 
 type heldParent struct {
-	kids []*heldLog
+	kids   []*heldLog
+	kidCtx context.Context // the context child 0 is spawned with (the user's own business)
 }
 
 func (p *heldParent) Receive(c *actor.Context) {
 	if _, ok := c.Message().(actor.Started); ok {
 		for i, lg := range p.kids {
 			lg := lg
-			c.SpawnChild(func() actor.Receiver { return &heldChild{lg: lg} }, "kid", actor.WithID(fmt.Sprint(i)))
+			opts := []actor.OptFunc{actor.WithID(fmt.Sprint(i))}
+			if i == 0 && p.kidCtx != nil {
+				opts = append(opts, actor.WithContext(p.kidCtx))
+			}
+			c.SpawnChild(func() actor.Receiver { return &heldChild{lg: lg} }, "kid", opts...)
 		}
 	}
 }
@@ -544,6 +549,10 @@ func c02Held(c *caseCtx, forC08 bool) (res caseResult) {
 	}
 	nK := 1 + r.Intn(3)
 	p := &heldParent{}
+	cancelKid := func() {}
+	if r.Intn(2) == 0 {
+		p.kidCtx, cancelKid = context.WithCancel(context.Background())
+	}
 	for i := 0; i < nK; i++ {
 		p.kids = append(p.kids, &heldLog{})
 	}
@@ -559,6 +568,13 @@ func c02Held(c *caseCtx, forC08 bool) (res caseResult) {
 	case <-time.After(wd):
 		res.inconclusive("the child did not take up its message")
 		return
+	}
+	// the context the child was spawned with is cancelled while the child is at work: nobody's Receive is
+	// cut short or doubled by that
+	cancelKid()
+	time.Sleep(5 * time.Millisecond)
+	if o := atomic.LoadInt32(&p.kids[0].overlaps); o > 0 && !forC08 {
+		res.violate("the context child 0 was spawned with was cancelled while the child was inside Receive: %d further invocation(s) of its Receive began meanwhile", o)
 	}
 	graceful := r.Intn(2) == 0
 	var ctx context.Context
@@ -650,6 +666,7 @@ type succActor struct {
 }
 
 type succMsg struct{ N int }
+type succEarly struct{}
 
 func (a *succActor) Receive(c *actor.Context) {
 	if atomic.AddInt32(&a.inflight, 1) != 1 {
@@ -659,6 +676,14 @@ func (a *succActor) Receive(c *actor.Context) {
 	}
 	defer atomic.AddInt32(&a.inflight, -1)
 	switch m := c.Message().(type) {
+	case actor.Initialized:
+		// work that is already there when the actor comes up
+		c.Send(c.PID(), succEarly{})
+		c.Send(c.PID(), succEarly{})
+	case actor.Started:
+		time.Sleep(100 * time.Microsecond) // a Started handler that takes its time
+	case succEarly:
+		userPerturb()
 	case succMsg:
 		if m.N != a.last+1 {
 			a.lg.mu.Lock()
